@@ -1390,6 +1390,22 @@ func runC15(c *Ctx) {
 				return
 			}
 		}
+		// the same step on the model (op prxreg): for each client, in the order registered, the device
+		// its new request names
+		var hexes, ans []string
+		byID := map[device.ID]c2.VerifC15Client{}
+		for _, cl := range px.Clients() {
+			byID[cl.ID] = cl
+		}
+		for k, id := range ids {
+			hexes = append(hexes, hx(id[:]))
+			var nw []string
+			for _, l := range byID[id].Queued[before[id]:] {
+				nw = append(nw, c15Idx(ids, l.Dev))
+			}
+			ans = append(ans, fmt.Sprintf("%d>%s", k, strings.Join(nw, ",")))
+		}
+		c.Op("prxreg "+strings.Join(hexes, ","), strings.Join(ans, " "))
 		c.Count(fmt.Sprintf("prx-register:clients=%d", len(ids)))
 		c.Eval(true, fmt.Sprint("prx-register", in))
 	})
